@@ -868,6 +868,30 @@ theorem step_deleted_iff (S : Schema) (doc doc' : Node) (st : Step) (hok : Aroun
   obtain ⟨hinv, hwf⟩ := step_map_wf S doc doc' st hok h
   exact deleted_iff_covered _ hinv hwf p a (hside.imp id (step_noTouch st hok))
 
+/-- **replace step, the flag in the step's own coordinates**: `deleted` is true exactly for
+    `from < pos ≤ to` on the left side and for `from ≤ pos < to` on the right side -/
+theorem replace_deleted_rule (S : Schema) (doc doc' : Node) (f t : Nat) (sl : Slice) (b : Bool)
+    (h : S.apply (.replace f t sl b) doc = .ok doc') (p a : Int) :
+    ((Step.replace f t sl b).getMap.mapResult p a).deleted = true ↔
+      if a < 0 then (f : Int) < p ∧ p ≤ t else (f : Int) ≤ p ∧ p < t := by
+  rw [step_deleted_iff S doc doc' (.replace f t sl b) trivial h p a (.inr trivial)]
+  simp only [outside, Step.getMap, List.mem_singleton, forall_eq, sideTok]
+  split <;> omega
+
+/-- **replace-around step, the flag in the step's own coordinates**: the two replaced stretches
+    `[from, gapFrom)` and `[gapTo, to)`, read on the asked side -/
+theorem replaceAround_deleted_rule (S : Schema) (doc doc' : Node) (f t gf gt : Nat) (sl : Slice) (ins : Nat)
+    (b : Bool) (hok : AroundWF (.replaceAround f t gf gt sl ins b))
+    (h : S.apply (.replaceAround f t gf gt sl ins b) doc = .ok doc') (p a : Int)
+    (hside : a < 0 ∨ gf < gt ∨ gt = t) :
+    ((Step.replaceAround f t gf gt sl ins b).getMap.mapResult p a).deleted = true ↔
+      if a < 0 then ((f : Int) < p ∧ p ≤ gf) ∨ ((gt : Int) < p ∧ p ≤ t)
+      else ((f : Int) ≤ p ∧ p < gf) ∨ ((gt : Int) ≤ p ∧ p < t) := by
+  rw [step_deleted_iff S doc doc' (.replaceAround f t gf gt sl ins b) hok h p a hside]
+  simp only [outside, Step.getMap, List.mem_cons, List.not_mem_nil, or_false, forall_eq_or_imp, forall_eq,
+    sideTok]
+  split <;> omega
+
 /-- the right-side guard is needed: a replace-around step with an empty gap (`gapFrom = gapTo`)
     that deletes content after the gap has the ranges `(2, 1, 0)` and `(3, 2, 0)`; position 3 is
     caught at the *end* of the first range, so `map_result(3, 1).deleted` is false although the
